@@ -470,6 +470,31 @@ fn specs(quick: bool) -> Vec<ConvSpec> {
             lockstep: ls,
             sparse: false,
         });
+        // two statements whose long data arrives interleaved; one is closed with data pending, the
+        // other executed and closed; then a library-answered command
+        v.push(ConvSpec {
+            label: format!("two statements, interleaved long data, close with data pending, execute, close, ping ({})", mname),
+            cmds: vec![
+                ClientCmd::new(with_byte(COM_STMT_PREPARE, b"id=1 p=2 c=1")),
+                ClientCmd::new(with_byte(COM_STMT_PREPARE, b"id=2 p=2 c=1")),
+                ClientCmd::new(cmd_long(1, 0, b"a1")),
+                ClientCmd::new(cmd_long(2, 0, b"b1")),
+                ClientCmd::new(cmd_long(1, 0, b"a2")),
+                ClientCmd::new(cmd_close(1)),
+                ClientCmd::new(cmd_long(2, 0, b"b2")),
+                ClientCmd::new(cmd_execute(2, 0, 1, &blk)),
+                ClientCmd::new(cmd_close(2)),
+                ping(),
+            ],
+            progs: vec![Arc::new(programs[2].1.clone())],
+            fail_at: None,
+            auth_reject: false,
+            uniform_read: ur,
+            write_cap: wc,
+            cuts: vec![],
+            lockstep: ls,
+            sparse: false,
+        });
         // library replies
         v.push(ConvSpec {
             label: format!("init db, USE, field list, SELECT @@max_allowed_packet, ping ({})", mname),
